@@ -552,6 +552,7 @@ def main():
         # reproduces; a case that is clean in BOTH re-runs is recorded in the evidence as transient
         # and not reported.  With more than 3 bad cases nothing is filtered.
         transient = []
+        ctxdep = set()
         if 0 < len(bad_idx) <= 3 and binp and not a.replay and os.environ.get("VERIF_NOCONFIRM") != "1":
             confirmed = []
             for i in bad_idx:
@@ -566,8 +567,31 @@ def main():
                     confirmed.append(i)
                 else:
                     transient.append({"ops": cases[i]["ops"], "impl_obs": cases[i]["obs"], "kind": cases[i].get("kind"),
-                                      "was": "monitor" if i in mon else "correspondence"})
-                    log("case %d (%s) did not reproduce in 2 re-runs: recorded as transient, not reported" % (i, cases[i].get("kind")))
+                                      "was": "monitor" if i in mon else "correspondence", "index": i})
+            if transient:
+                # not reproducible in isolation: the failure may need the cases that ran before it in the
+                # same process (state kept between calls).  The whole generation is repeated once with the
+                # same seed: a case that is bad again at the same position is deterministic after all.
+                out2 = os.path.join(workdir, "cases_again.jsonl")
+                rc2, _o2 = harness_run(binp, P, args, out2, workdir, tmo)
+                bad2 = set()
+                if rc2 == 0:
+                    cs2 = load_cases(out2)
+                    d2, m2, e2 = evaluate(P, cs2, workdir)
+                    if not e2:
+                        off = len(cases) - len(cs2)   # corpus cases come first in `cases`
+                        bad2 = {j + off for j in set(d2) | set(m2)}
+                else:
+                    bad2 = {t["index"] for t in transient}   # the repeated run died: keep the alarm
+                still = [t for t in transient if t["index"] in bad2]
+                for t in still:
+                    confirmed.append(t["index"])
+                    ctxdep.add(t["index"])
+                    log("case %d (%s) fails again when the whole run is repeated: it depends on the cases before it (process state)" % (t["index"], t["kind"]))
+                transient = [t for t in transient if t["index"] not in bad2]
+                for t in transient:
+                    log("case %d (%s) reproduced neither alone (2 re-runs) nor in a repeated run: recorded as transient, not reported" % (t["index"], t["kind"]))
+                confirmed.sort()
             bad_idx = confirmed
         for i in bad_idx[:40]:
             c = cases[i]
@@ -596,6 +620,10 @@ def main():
                        "model_says": model_output(P, small, workdir),
                        "seed": seed, "tier": tier,
                        "replay_cmd": "python3 bin/check.py %s --replay <this file>" % P.ID}
+            if i in ctxdep:
+                payload["needs_run_context"] = ("this case fails only after the cases that ran before it in the same harness process "
+                                                "(state kept between calls); it failed at the same position when the whole run was repeated. "
+                                                "Reproduce with: VERIF_SEED=%s python3 bin/check.py %s --tier %s (case index %d)" % (seed, P.ID, tier, i))
             div = getattr(P, "DISAGREE_IS_VIOLATION", False)
             if div and hasattr(P, "disagree_is_violation"):
                 div = P.disagree_is_violation(small)
